@@ -199,7 +199,8 @@ def process(ctx, cases):
     lines, jobs = [], []
     for i, case in enumerate(cases):
         path = ctx.scratch / f"c19_{i}.geoh5"
-        s = wsh.Session(path)
+        import uuid as _uuid
+        s = wsh.Session(path, uid_pool=[_uuid.UUID(u) for u in case["pool_uids"]] if case.get("pool_uids") else None)
         try:
             for op in case["ops"]:
                 try:
@@ -230,6 +231,8 @@ def process(ctx, cases):
             dst = ctx.scratch / f"c19_{i}_f.geoh5"
             shutil.copy(path, dst)
             fcase = {"ops": case["ops"], "fault": fault[0]}
+            if case.get("pool_uids"):
+                fcase["pool_uids"] = case["pool_uids"]
             try:
                 apply_fault(dst, fault[4])
             except Exception as e:  # noqa: BLE001
@@ -258,10 +261,26 @@ def process(ctx, cases):
             ctx.disagree(c_, f"reader correspondence ({fid}): model load returns {sorted(m_uids) if m_uids else None}, implementation {sorted(got_uids)}")
 
 
+def directed_cases():
+    """Files whose groups include plain groups without a type of their own (the root's own class) stored under the lowest and
+    the highest possible identifiers, with objects and data below them: whatever the reader does when an item is missing
+    must not depend on where an identifier sorts in the flat containers."""
+    def op(k, a=0, b=0, c=0, uid=None):
+        return {"k": k, "a": a, "b": b, "c": c, "uid": uid}
+    pool = ["00000000-0000-4000-8000-000000000001", "ffffffff-ffff-4fff-bfff-fffffffffffe"]
+    out = []
+    for first in (0, 1):
+        out.append({"pool_uids": pool, "ops": [
+            op("create_group", 0, 4, 0, uid=first), op("create_group", 0, 0), op("create_group", 1, 4, 0, uid=1 - first),
+            op("create_object", 1, 0, 1), op("create_object", 2, 2, 1), op("add_data", 0, 0, 1), op("add_data", 1, 2, 2),
+            op("pg_add", 0, 0, 0), op("comment", 1, 1, 1)]})
+    return out
+
+
 def run(ctx: Ctx):
     weights = {"reopen": 0, "gc": 0, "remove_ws": 1, "remove_parent": 0, "add_data": 9, "pg_add": 7, "create_object": 5,
                "rename": 0, "flag": 1, "set_geometry": 0, "move": 1, "copy": 1}
-    cases = [{"ops": wsh.gen_ops(ctx.rng, ctx.rng.randrange(5, 10), weights=weights)} for _ in range(ctx.n(8, 60))]
+    cases = directed_cases() + [{"ops": wsh.gen_ops(ctx.rng, ctx.rng.randrange(5, 10), weights=weights)} for _ in range(ctx.n(8, 60))]
     process(ctx, cases)
 
 
